@@ -693,4 +693,535 @@ impl Rng {
     fn bytes(&mut self, n: usize) -> Vec<u8> { (0..n).map(|_| (self.next() >> 24) as u8).collect() }
 }
 
-//@@PART3@@
+// ===============================================================================================================
+// 3. the case space
+// ===============================================================================================================
+
+#[derive(Clone, Copy, Debug, PartialEq)]
+enum Variant { Base, LengthToggled, DirectDict, IdentityInCf }
+impl Variant {
+    fn s(&self) -> &'static str { match self { Variant::Base => "base", Variant::LengthToggled => "length-toggled", Variant::DirectDict => "direct-dict", Variant::IdentityInCf => "identity-in-cf" } }
+    fn parse(s: &str) -> Variant { match s { "length-toggled" => Variant::LengthToggled, "direct-dict" => Variant::DirectDict, "identity-in-cf" => Variant::IdentityInCf, _ => Variant::Base } }
+}
+
+#[derive(Clone, Debug)]
+struct Case {
+    dir: char,        // 'A' reference encrypts, lopdf opens; 'B' lopdf encrypts, reference opens
+    r: u8,            // revision 2..6
+    bits: usize,      // file key length
+    stm: Ciph,
+    strf: Ciph,
+    em: bool,         // EncryptMetadata
+    perm: u32,        // user access bits (bit positions 3-6, 9-12 as a mask)
+    user: String,
+    owner: String,
+    seed: u64,
+    layout: u8,       // 0: cross-reference table; 1: cross-reference stream (A: plus two objects in an object stream)
+    variant: Variant,
+}
+
+impl Case {
+    fn to_json(&self, obligation: &str) -> Value {
+        json!({"obligation": obligation, "dir": self.dir.to_string(), "r": self.r, "bits": self.bits, "stm": self.stm.s(), "str": self.strf.s(), "em": self.em, "perm": self.perm,
+               "user": self.user, "owner": self.owner, "seed": self.seed, "layout": self.layout, "variant": self.variant.s()})
+    }
+    fn from_json(v: &Value) -> Case {
+        Case { dir: v["dir"].as_str().unwrap_or("A").chars().next().unwrap_or('A'), r: v["r"].as_u64().unwrap_or(2) as u8, bits: v["bits"].as_u64().unwrap_or(40) as usize,
+               stm: Ciph::parse(v["stm"].as_str().unwrap_or("RC4")), strf: Ciph::parse(v["str"].as_str().unwrap_or("RC4")), em: v["em"].as_bool().unwrap_or(true),
+               perm: v["perm"].as_u64().unwrap_or(0) as u32, user: v["user"].as_str().unwrap_or("").into(), owner: v["owner"].as_str().unwrap_or("").into(),
+               seed: v["seed"].as_u64().unwrap_or(0), layout: v["layout"].as_u64().unwrap_or(0) as u8, variant: Variant::parse(v["variant"].as_str().unwrap_or("base")) }
+    }
+    fn v(&self) -> i64 { match self.r { 2 => 1, 3 => 2, 4 => 4, _ => 5 } }
+    fn n(&self) -> usize { self.bits / 8 }
+    fn p(&self) -> i32 { conforming_p(self.perm) }
+    fn describe(&self) -> String {
+        format!("{} R{} {} bits StmF={} StrF={} em={} P={} user={:?} owner={:?} seed={} layout={} {}", self.dir, self.r, self.bits, self.stm.s(), self.strf.s(), self.em, self.p(),
+                short(&self.user), short(&self.owner), self.seed, if self.layout == 0 { "table" } else { "xref-stream" }, self.variant.s())
+    }
+    /// input-class suffix of the obligation names
+    fn suffix(&self) -> String {
+        let mut s = String::new();
+        if self.stm == Ciph::Identity || self.strf == Ciph::Identity { s.push_str(if self.variant == Variant::IdentityInCf { "-identity-in-cf" } else { "-identity" }); }
+        match self.variant {
+            Variant::LengthToggled => s.push_str(if self.r >= 5 { "-length-256" } else { "-length-absent" }),
+            Variant::DirectDict => s.push_str("-direct-dict"),
+            _ => {}
+        }
+        s
+    }
+    /// whether the encryption dictionary carries a top-level /Length (direction A)
+    fn length_entry(&self) -> Option<i64> {
+        let toggled = self.variant == Variant::LengthToggled;
+        match self.r {
+            2 => None,                                                   // V 1: Length is meaningful only for V 2 and 3
+            3 => if toggled { None } else { Some(self.bits as i64) },    // toggled only for 40 bits (the default value)
+            4 => if toggled { None } else { Some(128) },
+            _ => if toggled { Some(256) } else { None },
+        }
+    }
+}
+
+fn short(s: &str) -> String { if s.chars().count() > 24 { format!("{}..({} bytes)", s.chars().take(24).collect::<String>(), s.len()) } else { s.to_string() } }
+
+const PERM_SETS: [u32; 3] = [0x0F3C, 0x0000, 0x0114]; // all; none; print + copy + fill forms (bits 3, 5, 9)
+
+const U32: &str = "exactly-thirty-two-bytes-long-pw";
+const U40: &str = "common-prefix-of-32-bytes-------USERTAIL";
+const O40: &str = "common-prefix-of-32-bytes-------OWNRTAIL";
+const OWNER40: &str = "An-Owner-Password-Of-Forty-Bytes-In-All!";
+const NONASCII_DOC: &str = "p\u{e4}\u{20ac}\u{141}\u{17e}\u{2022}";     // a-umlaut, Euro (0xA0), Lslash (0x95), zcaron (0x9E), bullet (0x80)
+const NONASCII_DOC_OWNER: &str = "\u{f6}wn\u{20ac}r\u{2022}";
+const NONASCII_UTF8: &str = "p\u{e9}-\u{3bb}-\u{5bc6}";                  // precomposed Latin, Greek, CJK: SASLprep is the identity on these
+const NONASCII_UTF8_OWNER: &str = "\u{d6}wner-\u{3a9}-\u{7801}";
+
+fn u127() -> String { format!("{}{}", "0123456789".repeat(12), "abcdefg") }
+/// 130 bytes; the two-byte character e-acute occupies bytes 126-127 (0-based), so the cut at 127 bytes splits it
+fn u130(tail: &str) -> String { format!("{}{}\u{e9}{}", "0123456789".repeat(12), "abcdef", tail) }
+
+/// (user, owner) pairs of a revision: users {empty, ASCII, non-ASCII, boundary length, over the boundary} x owners {empty, different, equal to user},
+/// plus pairs that differ only beyond the significant length
+fn password_pairs(r: u8) -> Vec<(String, String)> {
+    let users: Vec<String> = if r <= 4 { vec!["".into(), "user".into(), NONASCII_DOC.into(), U32.into(), U40.into()] }
+                             else { vec!["".into(), "user".into(), NONASCII_UTF8.into(), u127(), u130("ab")] };
+    let mut out: Vec<(String, String)> = vec![];
+    for u in &users {
+        let different: String = if u == "user" { if r <= 4 { NONASCII_DOC_OWNER.into() } else { NONASCII_UTF8_OWNER.into() } } else { "Owner-Pass".into() };
+        for o in [String::new(), different, u.clone()] { if !out.contains(&(u.clone(), o.clone())) { out.push((u.clone(), o)); } }
+    }
+    if r <= 4 { out.push(("user".into(), OWNER40.into())); out.push((U40.into(), O40.into())); }
+    else { out.push((u130("ab"), u130("cd"))); }
+    assert!(U32.len() == 32 && U40.len() == 40 && O40.len() == 40 && OWNER40.len() == 40 && u127().len() == 127 && u130("ab").len() == 130);
+    out
+}
+
+#[derive(Clone, Copy)]
+struct Handler { r: u8, bits: usize, stm: Ciph, strf: Ciph, em: bool }
+
+fn handlers(thorough: bool) -> Vec<Handler> {
+    let mut out = vec![Handler { r: 2, bits: 40, stm: Ciph::Rc4, strf: Ciph::Rc4, em: true }];
+    let r3: Vec<usize> = if thorough { (40..=128).step_by(8).collect() } else { vec![40, 56, 64, 128] };
+    for bits in r3 { out.push(Handler { r: 3, bits, stm: Ciph::Rc4, strf: Ciph::Rc4, em: true }); }
+    for em in [true, false] {
+        for stm in [Ciph::Rc4, Ciph::AesV2, Ciph::Identity] { for strf in [Ciph::Rc4, Ciph::AesV2, Ciph::Identity] { out.push(Handler { r: 4, bits: 128, stm, strf, em }); } }
+    }
+    for r in [5u8, 6] { for em in [true, false] { out.push(Handler { r, bits: 256, stm: Ciph::AesV3, strf: Ciph::AesV3, em }); } }
+    out
+}
+
+fn cases(thorough: bool) -> Vec<Case> {
+    let mut out = vec![];
+    let mk = |dir: char, h: &Handler, perm: u32, u: &str, o: &str, seed: u64, layout: u8, variant: Variant| Case {
+        dir, r: h.r, bits: h.bits, stm: h.stm, strf: h.strf, em: h.em, perm, user: u.into(), owner: o.into(), seed, layout, variant };
+    let three: [(&str, &str); 3] = [("user", "Owner-Pass"), ("", "Owner-Pass"), ("user", "")];
+    for h in handlers(thorough) {
+        // the full product, both directions
+        for dir in ['A', 'B'] {
+            for perm in PERM_SETS { for (u, o) in password_pairs(h.r) { for seed in [0u64, 1] { for layout in [0u8, 1] {
+                out.push(mk(dir, &h, perm, &u, &o, seed, layout, Variant::Base));
+            } } } }
+        }
+        // variants: all permissions, three password pairs, both seeds, cross-reference table
+        let toggles = match h.r { 2 => false, 3 => h.bits == 40, _ => true };
+        let direct = match h.r { 3 => h.bits == 128, 4 => h.stm == Ciph::AesV2 && h.strf == Ciph::AesV2 && h.em, _ => h.em };
+        let id_in_cf = h.r == 4 && (h.stm == Ciph::Identity || h.strf == Ciph::Identity);
+        for (u, o) in three { for seed in [0u64, 1] {
+            if toggles { out.push(mk('A', &h, PERM_SETS[0], u, o, seed, 0, Variant::LengthToggled)); }
+            if direct { out.push(mk('A', &h, PERM_SETS[0], u, o, seed, 0, Variant::DirectDict)); }
+            if id_in_cf { out.push(mk('B', &h, PERM_SETS[0], u, o, seed, 0, Variant::IdentityInCf)); }
+        } }
+    }
+    out
+}
+
+const BOUND: &str = "cases = (direction, handler, permission word, (user, owner) password pair, seed, file layout, variant); every listed set is enumerated completely (no sampling). \
+DIRECTIONS: A = the reference handler of this module (own MD5/SHA-2/AES/RC4, own PDF writer) encrypts, lopdf load_mem + authenticate_user_password / authenticate_owner_password / decrypt opens; \
+B = lopdf EncryptionState::try_from + Document::encrypt + save_to produces, the reference reads the encryption dictionary, authenticates and decrypts. \
+HANDLERS: R2 (V1, RC4 40); R3 (V2, RC4) with key length 40,48,..,128 (quick tier: 40,56,64,128); R4 (V4, 128 bit) with StmF x StrF over {RC4 (/V2), AESV2, the predefined /Identity} x EncryptMetadata {true,false}; \
+R5 and R6 (V5, AESV3, 256 bit) x EncryptMetadata {true,false}. \
+PERMISSIONS: 3 conforming words (bits 1-2 zero, 7-8 and 13-32 one): all access bits (-4), none (-3904), print+copy+fill (-3628). \
+PASSWORDS: users {empty, 'user', non-ASCII (R2-4: a-umlaut, Euro, Lslash, zcaron, bullet = PDFDocEncoding E4 A0 95 9E 80; R5/6: e-acute, lambda, a CJK character, UTF-8), boundary length (R2-4: exactly 32 bytes; R5/6: exactly 127 bytes), \
+over the boundary (R2-4: 40 bytes; R5/6: 130 bytes with a two-byte character split by the cut at 127)} x owners {empty (R2-4: Algorithm 3 then uses the user password), different (non-ASCII for user 'user'), equal to the user password}, \
+plus (R2-4) owner of 40 bytes and a pair equal in the first 32 bytes only, (R5/6) a pair equal in the first 127 bytes only: 16 pairs for R2-4, 15 for R5/6. R5/6 passwords are restricted to strings on which SASLprep is the identity. \
+SEEDS: 2 (file identifier of 16 / 21 bytes, R5/6 file key, and in A all salts, IVs, U padding; in B lopdf draws its own salts and IVs). \
+LAYOUTS: cross-reference table; cross-reference stream (in A additionally two objects with strings inside an encrypted object stream). \
+DOCUMENT (fixed): strings of 0,1,5,15,16,17,20,32,33 bytes (literal and hexadecimal, binary) directly, in arrays and dictionaries to depth 3 and in a stream dictionary; streams of 0,1,16,17,40,100 (binary) bytes; a Metadata stream; \
+(R>=4) a stream with /Filter /Crypt /Name /Identity; ids 1..16 with generations 0,1,2, and 11 gen 300, 300 gen 0, 66051 gen 258, 70000 gen 0, 16909060 gen 5. \
+FULL PRODUCT in both directions: handlers x permissions x pairs x seeds x layouts. \
+VARIANTS (permission word -4, pairs {(user,Owner-Pass),('',Owner-Pass),(user,'')}, 2 seeds, table): A with the top-level /Length toggled (R3/40 and R4: absent; R5/R6: /Length 256 present; base is /Length present for R3/R4, absent for R2/R5/R6), \
+A with /Encrypt as a direct dictionary in the trailer (one handler per revision), B with Identity requested through a CF entry holding lopdf's IdentityCryptFilter (R4 handlers that use Identity; base requests the name /Identity without CF entry). \
+EACH A CASE: user password, owner password (effective: the user password if there is none), a wrong password and (if neither password is empty) the empty password; lopdf's file key is compared with the reference's. \
+EACH B CASE: V, R, Length, P, CF/StmF/StrF/CFM/AuthEvent, EncryptMetadata, O and U recomputed (R2-4) or validated with UE/OE/Perms (R5/6), file key, every string and stream decrypted by the reference, /ID untouched. \
+NOT COVERED: passwords that SASLprep changes; non-conforming P words; R4 crypt filters with keys shorter than 128 bits; V5 with Identity or mixed filters; public-key handlers; /EFF; array-form DecodeParms of /Crypt; \
+object streams in direction B (lopdf's writer produces none)";
+
+// ===============================================================================================================
+// 4. the document, and the reference's own PDF writer
+// ===============================================================================================================
+
+fn pat(n: usize, seed: u8) -> Vec<u8> { (0..n).map(|i| (i as u8).wrapping_mul(37).wrapping_add(seed)).collect() }
+fn nm(b: &[u8]) -> Object { Object::Name(b.to_vec()) }
+fn lit(b: &[u8]) -> Object { Object::String(b.to_vec(), StringFormat::Literal) }
+fn hxs(b: &[u8]) -> Object { Object::String(b.to_vec(), StringFormat::Hexadecimal) }
+fn dct(entries: Vec<(&[u8], Object)>) -> Dictionary { let mut d = Dictionary::new(); for (k, v) in entries { d.set(k.to_vec(), v); } d }
+fn stm(entries: Vec<(&[u8], Object)>, content: Vec<u8>) -> Object { Object::Stream(Stream::new(dct(entries), content)) }
+
+const ENC_ID: (u32, u16) = (20, 0);     // the encryption dictionary (direction A)
+const OBJSTM_ID: (u32, u16) = (14, 0);  // the object stream (direction A, layout 1)
+const XREF_ID: u32 = 21;                // the cross-reference stream (direction A, layout 1)
+
+/// the plain objects stored as ordinary indirect objects
+fn plain_objects(r: u8) -> Vec<((u32, u16), Object)> {
+    let mut bin = pat(100, 201);
+    bin[0] = 0; bin[1] = 0xff; bin[2] = b'\r'; bin[3] = b'\n'; bin[40..49].copy_from_slice(b"endstream");
+    let mut v = vec![
+        ((1, 0), Object::Dictionary(dct(vec![(b"Type", nm(b"Catalog")), (b"Pages", Object::Reference((2, 0))), (b"Metadata", Object::Reference((9, 0))), (b"Lang", lit(b"en-US"))]))),
+        ((2, 0), Object::Dictionary(dct(vec![(b"Type", nm(b"Pages")), (b"Kids", Object::Array(vec![])), (b"Count", Object::Integer(0))]))),
+        ((3, 0), Object::Dictionary(dct(vec![(b"Title", lit(b"T")), (b"Author", lit(b"")), (b"Subject", lit(b"fifteen bytes.!")), (b"Keywords", lit(b"0123456789abcdef")),
+                                             (b"Creator", lit(b"seventeen bytes!!")), (b"Producer", hxs(&pat(32, 7)))]))),
+        ((4, 1), Object::Array(vec![lit(b"in an array"), Object::Array(vec![lit(b"twenty bytes of text"), Object::Dictionary(dct(vec![(b"K", hxs(&pat(18, 250))), (b"E", hxs(b""))]))]),
+                                    Object::Integer(7), nm(b"Name"), Object::Null, Object::Boolean(true), lit(b"(paren) \\ back\r\n")])),
+        ((5, 0), stm(vec![], vec![])),
+        ((6, 0), stm(vec![], vec![0x80])),
+        ((7, 2), stm(vec![(b"Extra", lit(b"string in a stream dict"))], pat(16, 91))),
+        ((8, 0), stm(vec![(b"Subtype", nm(b"Image")), (b"Width", Object::Integer(10))], bin)),
+        ((9, 0), stm(vec![(b"Type", nm(b"Metadata")), (b"Subtype", nm(b"XML"))], b"<?xpacket begin=''?><x:xmpmeta/><?xpacket end='w'?>".to_vec())),
+        ((11, 300), lit(b"thirty-three bytes of plain text!")),
+        ((15, 0), stm(vec![], pat(17, 33))),
+        ((300, 0), Object::Dictionary(dct(vec![(b"S", lit(b"object number above 255")), (b"N", Object::Integer(-5))]))),
+        ((66051, 258), stm(vec![(b"Note", hxs(&pat(32, 99)))], pat(40, 5))),
+        ((70000, 0), lit(b"object number above 65535")),
+        ((16909060, 5), hxs(&pat(16, 131))),
+    ];
+    if r >= 4 {
+        v.push(((10, 0), stm(vec![(b"Filter", nm(b"Crypt")), (b"DecodeParms", Object::Dictionary(dct(vec![(b"Type", nm(b"CryptFilterDecodeParms")), (b"Name", nm(b"Identity"))])))], pat(20, 77))));
+    }
+    v.sort_by_key(|x| x.0);
+    v
+}
+/// the objects kept inside the object stream (direction A, layout 1); generation 0 by definition
+fn compressed_objects() -> Vec<(u32, Object)> {
+    vec![(12, Object::Dictionary(dct(vec![(b"S", lit(b"string in an objstm!")), (b"A", Object::Array(vec![lit(b"x"), hxs(&pat(16, 17))]))]))),
+         (13, Object::Array(vec![lit(b"second compressed object"), Object::Integer(1)]))]
+}
+
+fn ser(o: &Object, out: &mut Vec<u8>) {
+    match o {
+        Object::Null => out.extend_from_slice(b"null"),
+        Object::Boolean(b) => out.extend_from_slice(if *b { b"true" } else { b"false" }),
+        Object::Integer(i) => out.extend_from_slice(i.to_string().as_bytes()),
+        Object::Real(x) => out.extend_from_slice(format!("{}", x).as_bytes()),
+        Object::Name(n) => {
+            out.push(b'/');
+            for &b in n { if b.is_ascii_alphanumeric() || b == b'-' || b == b'_' || b == b'.' { out.push(b); } else { out.extend_from_slice(format!("#{:02X}", b).as_bytes()); } }
+        }
+        Object::String(s, StringFormat::Hexadecimal) => { out.push(b'<'); out.extend_from_slice(hex(s).as_bytes()); out.push(b'>'); }
+        Object::String(s, StringFormat::Literal) => {
+            out.push(b'(');
+            for &b in s {
+                match b { b'\\' => out.extend_from_slice(b"\\\\"), b'(' => out.extend_from_slice(b"\\("), b')' => out.extend_from_slice(b"\\)"), b'\r' => out.extend_from_slice(b"\\r"), b'\n' => out.extend_from_slice(b"\\n"), _ => out.push(b) }
+            }
+            out.push(b')');
+        }
+        Object::Array(a) => { out.push(b'['); for (i, x) in a.iter().enumerate() { if i > 0 { out.push(b' '); } ser(x, out); } out.push(b']'); }
+        Object::Dictionary(d) => ser_dict(d, out),
+        Object::Reference(id) => out.extend_from_slice(format!("{} {} R", id.0, id.1).as_bytes()),
+        Object::Stream(s) => {
+            let mut d = s.dict.clone();
+            d.set("Length", Object::Integer(s.content.len() as i64));
+            ser_dict(&d, out);
+            out.extend_from_slice(b"\nstream\n");
+            out.extend_from_slice(&s.content);
+            out.extend_from_slice(b"\nendstream");
+        }
+    }
+}
+fn ser_dict(d: &Dictionary, out: &mut Vec<u8>) {
+    out.extend_from_slice(b"<<");
+    for (k, v) in d.iter() { ser(&Object::Name(k.clone()), out); out.push(b' '); ser(v, out); out.push(b' '); }
+    out.extend_from_slice(b">>");
+}
+
+/// write a complete PDF file: `objects` as they are (already encrypted), `compressed` = (id, container, index) entries for
+/// the cross-reference stream (the container is among `objects`), trailer entries in `trailer`
+fn write_pdf(objects: &[((u32, u16), Object)], compressed: &[(u32, u32, u16)], trailer: &Dictionary, xref_stream: bool) -> Vec<u8> {
+    let mut out: Vec<u8> = b"%PDF-1.7\n%\xE2\xE3\xCF\xD3\n".to_vec();
+    let mut offsets: Vec<((u32, u16), usize)> = vec![];
+    for (id, o) in objects {
+        offsets.push((*id, out.len()));
+        out.extend_from_slice(format!("{} {} obj\n", id.0, id.1).as_bytes());
+        ser(o, &mut out);
+        out.extend_from_slice(b"\nendobj\n");
+    }
+    let mut max_id = objects.iter().map(|x| x.0 .0).max().unwrap_or(0);
+    for c in compressed { max_id = max_id.max(c.0); }
+    let start = out.len();
+    if !xref_stream {
+        out.extend_from_slice(b"xref\n0 1\n0000000000 65535 f \n");
+        for (id, off) in &offsets { out.extend_from_slice(format!("{} 1\n{:010} {:05} n \n", id.0, off, id.1).as_bytes()); }
+        let mut t = trailer.clone();
+        t.set("Size", Object::Integer(max_id as i64 + 1));
+        out.extend_from_slice(b"trailer\n");
+        ser_dict(&t, &mut out);
+        out.push(b'\n');
+    } else {
+        max_id = max_id.max(XREF_ID);
+        let mut rows: BTreeMap<u32, (u8, u32, u16)> = BTreeMap::new();
+        rows.insert(0, (0, 0, 65535));
+        for (id, off) in &offsets { rows.insert(id.0, (1, *off as u32, id.1)); }
+        for (id, container, index) in compressed { rows.insert(*id, (2, *container, *index)); }
+        rows.insert(XREF_ID, (1, start as u32, 0));
+        let mut index: Vec<Object> = vec![];
+        let mut data: Vec<u8> = vec![];
+        let ids: Vec<u32> = rows.keys().copied().collect();
+        let mut i = 0;
+        while i < ids.len() {
+            let mut j = i;
+            while j + 1 < ids.len() && ids[j + 1] == ids[j] + 1 { j += 1; }
+            index.push(Object::Integer(ids[i] as i64));
+            index.push(Object::Integer((j - i + 1) as i64));
+            i = j + 1;
+        }
+        for (_, (t, a, b)) in &rows { data.push(*t); data.extend_from_slice(&a.to_be_bytes()); data.extend_from_slice(&b.to_be_bytes()); }
+        let mut d = trailer.clone();
+        d.set("Type", nm(b"XRef"));
+        d.set("Size", Object::Integer(max_id as i64 + 1));
+        d.set("W", Object::Array(vec![Object::Integer(1), Object::Integer(4), Object::Integer(2)]));
+        d.set("Index", Object::Array(index));
+        out.extend_from_slice(format!("{} 0 obj\n", XREF_ID).as_bytes());
+        ser(&Object::Stream(Stream::new(d, data)), &mut out);
+        out.extend_from_slice(b"\nendobj\n");
+    }
+    out.extend_from_slice(format!("startxref\n{}\n%%EOF\n", start).as_bytes());
+    out
+}
+
+// ---- comparison of a plain object with what came back -------------------------------------------------------------
+fn short_hex(b: &[u8]) -> String { if b.len() <= 24 { hex(b) } else { format!("{}..", hex(&b[..24])) } }
+
+fn diff_obj(a: &Object, b: &Object, path: &str) -> Option<String> {
+    match (a, b) {
+        (Object::String(x, _), Object::String(y, _)) => if x != y { Some(format!("string at {}: expected {} bytes {}, got {} bytes {}", path, x.len(), short_hex(x), y.len(), short_hex(y))) } else { None },
+        (Object::Array(x), Object::Array(y)) => {
+            if x.len() != y.len() { return Some(format!("array at {}: {} elements instead of {}", path, y.len(), x.len())); }
+            x.iter().zip(y.iter()).enumerate().find_map(|(i, (p, q))| diff_obj(p, q, &format!("{}[{}]", path, i)))
+        }
+        (Object::Dictionary(x), Object::Dictionary(y)) => diff_dict(x, y, path),
+        (Object::Stream(x), Object::Stream(y)) => {
+            if let Some(d) = diff_dict(&x.dict, &y.dict, path) { return Some(d); }
+            if x.content != y.content { Some(format!("stream at {}: expected {} bytes {}, got {} bytes {}", path, x.content.len(), short_hex(&x.content), y.content.len(), short_hex(&y.content))) } else { None }
+        }
+        (x, y) => if x == y { None } else { Some(format!("{}: expected {:?}, got {:?}", path, x, y)) },
+    }
+}
+fn diff_dict(x: &Dictionary, y: &Dictionary, path: &str) -> Option<String> {
+    for (k, v) in x.iter() {
+        if k.as_slice() == b"Length" { continue; }
+        match y.get(k) {
+            Ok(w) => if let Some(d) = diff_obj(v, w, &format!("{}/{}", path, String::from_utf8_lossy(k))) { return Some(d); },
+            Err(_) => return Some(format!("{}: key {} missing", path, String::from_utf8_lossy(k))),
+        }
+    }
+    for (k, _) in y.iter() { if k.as_slice() != b"Length" && x.get(k).is_err() { return Some(format!("{}: extra key {}", path, String::from_utf8_lossy(k))); } }
+    None
+}
+
+type Fails = Vec<(String, String)>;
+fn push(f: &mut Fails, ob: &str, detail: String) { if !f.iter().any(|x| x.0 == ob) { f.push((ob.to_string(), detail)); } }
+
+fn lib<T>(f: impl FnOnce() -> T) -> Result<T, String> { guarded(AssertUnwindSafe(f)) }
+
+// ===============================================================================================================
+// 5. direction A: the reference encrypts, lopdf opens
+// ===============================================================================================================
+
+fn cf_name(c: Ciph) -> &'static [u8] { match c { Ciph::Rc4 => b"RC4CF", Ciph::AesV2 | Ciph::AesV3 => b"StdCF", Ciph::Identity => b"Identity" } }
+fn cfm_name(c: Ciph) -> &'static [u8] { match c { Ciph::Rc4 => b"V2", Ciph::AesV2 => b"AESV2", Ciph::AesV3 => b"AESV3", Ciph::Identity => b"None" } }
+
+struct RefEnc { fkey: Vec<u8>, dict: Dictionary, named: BTreeMap<Vec<u8>, Ciph> }
+
+/// everything the reference handler puts into the encryption dictionary, and the file key
+fn ref_encryption(c: &Case, upw: &[u8], opw: &[u8], id0: &[u8], rng: &mut Rng) -> RefEnc {
+    let (r, n, p) = (c.r, c.n(), c.p());
+    let mut d = Dictionary::new();
+    d.set("Filter", nm(b"Standard"));
+    d.set("V", Object::Integer(c.v()));
+    d.set("R", Object::Integer(r as i64));
+    if let Some(l) = c.length_entry() { d.set("Length", Object::Integer(l)); }
+    d.set("P", Object::Integer(p as i64));
+    let fkey;
+    if r <= 4 {
+        let eff_owner = if opw.is_empty() { upw } else { opw };                // Algorithm 3 (a): no owner password -> the user password
+        let o = alg3(r, n, eff_owner, upw);
+        fkey = alg2(r, n, upw, &o, p, id0, c.em);
+        let u = if r == 2 { alg4(&fkey) } else { let mut u = alg5(&fkey, id0); u.extend_from_slice(&rng.bytes(16)); u }; // 16 bytes of arbitrary padding
+        d.set("O", hxs(&o));
+        d.set("U", lit(&u));
+    } else {
+        fkey = rng.bytes(32);
+        let (u, ue) = alg8(r, upw, &fkey, &rng.bytes(8), &rng.bytes(8));
+        let (o, oe) = alg9(r, opw, &fkey, &rng.bytes(8), &rng.bytes(8), &u);
+        let perms = alg10(p, c.em, &fkey, &rng.bytes(4));
+        d.set("O", hxs(&o)); d.set("U", hxs(&u)); d.set("OE", lit(&oe)); d.set("UE", lit(&ue)); d.set("Perms", hxs(&perms));
+    }
+    let mut named = BTreeMap::new();
+    if r >= 4 {
+        let mut cf = Dictionary::new();
+        for x in [c.stm, c.strf] {
+            if x == Ciph::Identity || named.contains_key(cf_name(x)) { continue; }
+            // the standard security handler gives the crypt filter's Length in bytes (ISO 32000-2 table 25)
+            cf.set(cf_name(x).to_vec(), Object::Dictionary(dct(vec![(b"Type", nm(b"CryptFilter")), (b"CFM", nm(cfm_name(x))), (b"AuthEvent", nm(b"DocOpen")), (b"Length", Object::Integer(if x == Ciph::AesV3 { 32 } else { 16 }))])));
+            named.insert(cf_name(x).to_vec(), x);
+        }
+        d.set("CF", Object::Dictionary(cf));
+        d.set("StmF", nm(cf_name(c.stm)));
+        d.set("StrF", nm(cf_name(c.strf)));
+        if !c.em || c.seed % 2 == 1 { d.set("EncryptMetadata", Object::Boolean(c.em)); } // absent means true
+    }
+    RefEnc { fkey, dict: d, named }
+}
+
+fn lib_filter(c: Ciph) -> Arc<dyn CryptFilter> {
+    match c { Ciph::Rc4 => Arc::new(Rc4CryptFilter), Ciph::AesV2 => Arc::new(Aes128CryptFilter), Ciph::AesV3 => Arc::new(Aes256CryptFilter), Ciph::Identity => Arc::new(IdentityCryptFilter) }
+}
+
+/// where lopdf's key derivation leaves the reference's, as far as the public API shows it
+fn diagnose_a(doc: &Document, pw_bytes: &[u8], fkey: &[u8], r: u8) -> String {
+    let alg = if r <= 4 { "Algorithm 2 (with 6/7)" } else { "Algorithm 2.A" };
+    match lib(|| EncryptionState::decode(doc, pw_bytes).map(|s| s.file_encryption_key().to_vec())) {
+        Err(p) => format!("EncryptionState::decode panicked: {}", p),
+        Ok(Err(e)) => format!("EncryptionState::decode fails: {}", e),
+        Ok(Ok(k)) => if k == fkey { format!("lopdf derives the same file key as the reference ({}), so the deviation is after {}", hex(fkey), alg) }
+                     else { format!("{}: lopdf derives the file key {} ({} bytes), the reference encrypted with {} ({} bytes)", alg, hex(&k), k.len(), hex(fkey), fkey.len()) },
+    }
+}
+
+fn run_a(c: &Case) -> Fails {
+    let mut f: Fails = vec![];
+    let sfx = c.suffix();
+    let ob = |s: &str| format!("{}{}", s, sfx);
+    let mut rng = Rng::new(c.seed);
+    let id0 = rng.bytes(if c.seed % 2 == 0 { 16 } else { 21 });
+    let id1 = rng.bytes(16);
+    let (upw, opw) = match (prep_password(c.r, &c.user), prep_password(c.r, &c.owner)) { (Some(u), Some(o)) => (u, o), _ => { push(&mut f, "harness-password-family", "a generated password is outside PDFDocEncoding".into()); return f; } };
+    let eff_owner_str: &str = if c.r <= 4 && opw.is_empty() { &c.user } else { &c.owner };
+    let eff_owner: Vec<u8> = if c.r <= 4 && opw.is_empty() { upw.clone() } else { opw.clone() };
+    let re = ref_encryption(c, &upw, &opw, &id0, &mut rng);
+    let rc = RefCrypt { fkey: &re.fkey, stm: c.stm, strf: c.strf, em: c.em, named: &re.named };
+    let plain = plain_objects(c.r);
+    let comp = if c.layout == 1 { compressed_objects() } else { vec![] };
+    let mut objects: Vec<((u32, u16), Object)> = plain.iter().map(|(id, o)| (*id, rc.encrypt(*id, o, &mut rng))).collect();
+    let mut compressed: Vec<(u32, u32, u16)> = vec![];
+    if !comp.is_empty() {
+        // strings inside an object stream are not encrypted individually: the stream as a whole is
+        let mut body: Vec<u8> = vec![];
+        let mut header = String::new();
+        for (i, (id, o)) in comp.iter().enumerate() {
+            header.push_str(&format!("{} {} ", id, body.len()));
+            ser(o, &mut body);
+            body.push(b'\n');
+            compressed.push((*id, OBJSTM_ID.0, i as u16));
+        }
+        let mut content = header.clone().into_bytes();
+        content.extend_from_slice(&body);
+        let os = stm(vec![(b"Type", nm(b"ObjStm")), (b"N", Object::Integer(comp.len() as i64)), (b"First", Object::Integer(header.len() as i64))], content);
+        objects.push((OBJSTM_ID, rc.encrypt(OBJSTM_ID, &os, &mut rng)));
+    }
+    let mut trailer = dct(vec![(b"Root", Object::Reference((1, 0))), (b"Info", Object::Reference((3, 0))), (b"ID", Object::Array(vec![hxs(&id0), hxs(&id1)]))]);
+    if c.variant == Variant::DirectDict { trailer.set("Encrypt", Object::Dictionary(re.dict.clone())); }
+    else { objects.push((ENC_ID, Object::Dictionary(re.dict.clone()))); trailer.set("Encrypt", Object::Reference(ENC_ID)); }
+    objects.sort_by_key(|x| x.0);
+    let bytes = write_pdf(&objects, &compressed, &trailer, c.layout == 1);
+
+    let loaded = match lib(|| Document::load_mem(&bytes)) {
+        Err(p) => { push(&mut f, "no-panic", format!("load_mem of the reference-encrypted file panicked: {}", p)); return f; }
+        Ok(Err(e)) => { push(&mut f, &ob("reference-encrypted-opens-in-lopdf"), format!("load_mem of the reference-encrypted file failed: {}", e)); return f; }
+        Ok(Ok(d)) => d,
+    };
+    // a reader that tries the empty password opens the file iff the empty string is the user password (or, R5/6, the owner password)
+    let expected_auto = upw.is_empty() || (c.r >= 5 && opw.is_empty());
+    let still_encrypted = loaded.trailer.get(b"Encrypt").is_ok();
+
+    let compare = |d: &Document, how: &str, key_ok: bool, f: &mut Fails| {
+        for (id, o) in &plain {
+            let df = match d.objects.get(id) { None => Some(format!("object {} {} is missing", id.0, id.1)), Some(g) => diff_obj(o, g, &format!("{} {}", id.0, id.1)) };
+            if let Some(df) = df {
+                // Algorithm 1: does lopdf's per-object key agree?
+                let cipher = match o { Object::Stream(_) if df.starts_with("stream") => c.stm, _ => c.strf };
+                let mut name = "reference-encrypted-opens-in-lopdf";
+                let mut extra = String::new();
+                if key_ok && cipher != Ciph::Identity {
+                    if let Ok(Ok(k)) = lib(|| lib_filter(cipher).compute_key(&re.fkey, *id)) {
+                        let want = alg1(&re.fkey, *id, cipher);
+                        if k != want { name = "object-key"; extra = format!("; Algorithm 1: lopdf's key for object {} {} is {}, the reference's is {}", id.0, id.1, hex(&k), hex(&want)); }
+                        else { extra = format!("; file key and object key ({}) agree: the deviation is in the {} data stage (IV / padding / cipher)", hex(&k), cipher.s()); }
+                    }
+                }
+                push(f, &ob(name), format!("{}: {}{}", how, df, extra));
+                break;
+            }
+        }
+        for (id, o) in &comp {
+            let df = match d.objects.get(&(*id, 0)) { None => Some(format!("object {} 0 (kept in object stream {}) is missing", id, OBJSTM_ID.0)), Some(g) => diff_obj(o, g, &format!("{} 0", id)) };
+            if let Some(df) = df { push(f, &ob("objstm-strings"), format!("{}: {}", how, df)); break; }
+        }
+    };
+
+    let open_checks = |enc: &Document, f: &mut Fails| {
+        match lib(|| enc.authenticate_user_password(&c.user)) {
+            Err(p) => push(f, "no-panic", format!("authenticate_user_password panicked: {}", p)),
+            Ok(Err(e)) => push(f, &ob("reference-encrypted-opens-in-lopdf"), format!("Algorithm {}: authenticate_user_password rejects the user password {:?}: {}; {}", if c.r <= 4 { "6" } else { "11" }, short(&c.user), e, diagnose_a(enc, &upw, &re.fkey, c.r))),
+            Ok(Ok(())) => {}
+        }
+        match lib(|| enc.authenticate_owner_password(eff_owner_str)) {
+            Err(p) => push(f, "no-panic", format!("authenticate_owner_password panicked: {}", p)),
+            Ok(Err(e)) => push(f, &ob("reference-encrypted-opens-in-lopdf"), format!("Algorithm {}: authenticate_owner_password rejects the owner password {:?}: {}; {}", if c.r <= 4 { "7" } else { "12" }, short(eff_owner_str), e, diagnose_a(enc, &eff_owner, &re.fkey, c.r))),
+            Ok(Ok(())) => {}
+        }
+        let mut pws: Vec<(&str, &[u8], &str)> = vec![(&c.user, &upw, "user")];
+        if eff_owner != upw { pws.push((eff_owner_str, &eff_owner, "owner")); }
+        for (pw, pwb, label) in pws {
+            let mut d = enc.clone();
+            match lib(|| d.decrypt(pw)) {
+                Err(p) => push(f, "no-panic", format!("decrypt with the {} password panicked: {}", label, p)),
+                Ok(Err(e)) => push(f, &ob("reference-encrypted-opens-in-lopdf"), format!("decrypt with the {} password {:?} failed: {}; {}", label, short(pw), e, diagnose_a(enc, pwb, &re.fkey, c.r))),
+                Ok(Ok(())) => {
+                    let key_ok = match d.encryption_state.as_ref().map(|s| s.file_encryption_key().to_vec()) {
+                        Some(k) if k != re.fkey => { push(f, &ob("file-key"), format!("{} with the {} password {:?}: lopdf's file key is {} ({} bytes), the reference encrypted with {} ({} bytes)",
+                            if c.r <= 4 { "Algorithm 2" } else { "Algorithm 2.A" }, label, short(pw), hex(&k), k.len(), hex(&re.fkey), re.fkey.len())); false }
+                        _ => true,
+                    };
+                    compare(&d, &format!("after decrypt with the {} password", label), key_ok, f);
+                }
+            }
+        }
+        let mut wrong: Vec<&str> = vec!["Wrong#1"];
+        if !expected_auto { wrong.push(""); }
+        for w in wrong {
+            let mut d = enc.clone();
+            match lib(|| d.decrypt(w)) {
+                Err(p) => push(f, "no-panic", format!("decrypt with a wrong password panicked: {}", p)),
+                Ok(Ok(())) => push(f, &ob("wrong-password-rejected"), format!("decrypt({:?}) returned Ok although the user password is {:?} and the owner password is {:?}", w, short(&c.user), short(eff_owner_str))),
+                Ok(Err(_)) => {}
+            }
+        }
+    };
+
+    if still_encrypted {
+        open_checks(&loaded, &mut f);
+    } else {
+        if !expected_auto { push(&mut f, &ob("wrong-password-rejected"), format!("load_mem opened the file with the empty password although the user password is {:?} and the owner password is {:?}", short(&c.user), short(eff_owner_str))); }
+        compare(&loaded, "after load_mem (opened with the empty password)", true, &mut f);
+        if c.layout == 0 {
+            // the loader has consumed the encrypted form; exercise the explicit calls on the same encrypted objects held in memory
+            let mut m = Document::with_version("1.7");
+            for (id, o) in &objects { m.objects.insert(*id, o.clone()); }
+            m.max_id = objects.iter().map(|x| x.0 .0).max().unwrap_or(0);
+            m.trailer = trailer.clone();
+            m.trailer.set("Size", Object::Integer(m.max_id as i64 + 1));
+            open_checks(&m, &mut f);
+        }
+    }
+    f
+}
+
+//@@PART6@@
